@@ -57,7 +57,7 @@ func (p *probeRS) Seek(off int64, whence int) (int64, error) {
 	return n, err
 }
 
-var c14Sources = []string{"bytes", "stream", "stream1", "streamEOF", "file", "rawfile", "pipe"}
+var c14Sources = []string{"bytes", "stream", "stream1", "streamEOF", "file", "rawfile", "pipe", "datareader"}
 
 func runC14(c any, x *kit.Ctx) {
 	cs := c.(C14Case)
@@ -172,6 +172,26 @@ func runC14(c any, x *kit.Ctx) {
 				p := &probeRS{probeR: probeR{r: f, pos: prefix, maxRead: prefix}, s: f}
 				pr = &p.probeR
 				src = p
+			case "datareader":
+				// the archive as the payload of an outer CARv1/CARv2 Reader would hand it out: an offset reader
+				// over an io.ReaderAt, which can Seek but not to its end (CARv1), or an io.SectionReader
+				if prefix > 0 {
+					continue // DataReader() always starts at the archive
+				}
+				rd, err := carv2.NewReader(bytes.NewReader(arch))
+				if err != nil {
+					panic(err)
+				}
+				if cs.Cont == "v1" {
+					dr, err := rd.DataReader()
+					if err != nil {
+						panic(err)
+					}
+					src = dr
+				} else {
+					// for a CARv2 the whole file is wanted: wrap it as the payload window of itself
+					src = io.NewSectionReader(bytes.NewReader(arch), 0, int64(len(arch)))
+				}
 			case "rawfile":
 				// the *os.File itself: ReaderAt, ReaderFrom, WriterTo as well as ReadSeeker
 				f, err := os.Open(path)
